@@ -304,6 +304,22 @@ def _client_side(ctx: Ctx, model: ExcModel) -> None:
                 marks = hh is not None and any(isinstance(x, ast.Assign) and any(isinstance(t, ast.Attribute) and t.attr == "_closed" for t in x.targets) and isinstance(x.value, ast.Constant) and x.value.value is True for st in hh.body for x in walk_scope(st))
                 ctx.check(bool(marks), "RF-PAIR", f"{mname}:{which}-transport-error-marks-closed:{tcls}", m, hh or node, ok="a transport failure marks the session closed (no further I/O on the broken transport)",
                           bad="a transport failure leaves the session usable: a later call reads/writes a desynchronised transport")
+    # handlers that mark the session closed WITHOUT draining (the "transport is broken" bypass) run with the user's
+    # on_log callback inside their try: they must cover only genuine transport-failure classes, otherwise an exception
+    # of the callback (say ConnectionRefusedError from a log forwarder) is taken for a dead transport, the session is
+    # flagged closed with the stream half-read and the next call on the connection reads its tail
+    TRANSPORT_ONLY = ("BrokenPipeError", "ConnectionResetError", "ConnectionAbortedError", "EOFError", "ArrowInvalid")
+    for mname in ("exchange", "tick"):
+        m = cls.methods[mname]
+        for h in (n for n in walk_scope(m.node) if isinstance(n, ast.ExceptHandler)):
+            marks = any(isinstance(x, ast.Assign) and any(isinstance(t, ast.Attribute) and t.attr == "_closed" for t in x.targets) for st in h.body for x in walk_scope(st))
+            drains = any(isinstance(x, ast.Call) and last_attr(x) in ("close", "_drain_stream") for st in h.body for x in walk_scope(st))
+            if not marks or drains:
+                continue
+            wide = [t for t in model.handler_types(h) if not any(model.is_sub(t, a) for a in TRANSPORT_ONLY)]
+            ctx.check(not wide, "RF-EXC", f"{mname}:undrained-close-only-on-transport-classes", m, h,
+                      ok="the close-without-drain bypass is taken only for transport-failure classes",
+                      bad=f"the close-without-drain bypass also covers {wide}: an exception of that class raised by the user's on_log callback marks the session closed with the stream half-read, and the next call on the connection reads its tail")
     for mname in ("close", "cancel"):
         m = cls.methods.get(mname)
         if m is None:
